@@ -267,6 +267,8 @@ def conc_spelling(draw, x_ratio, num, den, wv='g/mL', digits=6, min_ratio=1e-7):
 
     The stated base ratio is kept >= min_ratio so that P-decimal rounding inside parse_concentration is benign.
     """
+    if not (x_ratio > 0 and math.isfinite(x_ratio)):
+        x_ratio = 1e-3          # e.g. per litre of a mixture without volume (density inf): some value, the library decides
     forms = ['ratio', 'ratio', 'ratiow']
     if (num, den) == ('mol', 'L'):
         forms += ['M', 'M']
